@@ -1785,6 +1785,12 @@ class Transaction(object):
             n_sigs_to_insert = len(self.inputs[tid].signatures)
             for sig in self.inputs[tid].signatures:
                 if not sig.public_key:
+                    # Signature came without its key (i.e. imported from a dictionary): find the key it belongs to
+                    for k in self.inputs[tid].keys:
+                        if deepcopy(sig).verify(txid, k):
+                            sig.public_key = k
+                            break
+                if not sig.public_key:
                     break
                 newsig_pos = pub_key_list.index(sig.public_key.public_byte)
                 if sig_domain[newsig_pos] == '':
